@@ -8,6 +8,7 @@ package c19
 
 import (
 	"bytes"
+	"crypto/tls"
 	"fmt"
 	"io"
 	"net"
@@ -41,8 +42,12 @@ type mux struct {
 	done     map[string]chan struct{}
 }
 
-func newMux(t testing.TB, sniffTimeout time.Duration) *mux {
-	l, err := listener.New("127.0.0.1:0", nil)
+func newMux(t testing.TB, sniffTimeout time.Duration) *mux { return newMuxTLS(t, sniffTimeout, nil) }
+
+// newMuxTLS: the same multiplexer behind TLS when conf is set (the documented
+// "tls" listener of the server is this listener with a certificate).
+func newMuxTLS(t testing.TB, sniffTimeout time.Duration, conf *tls.Config) *mux {
+	l, err := listener.New("127.0.0.1:0", conf)
 	if err != nil {
 		t.Fatalf("listen: %v", err)
 	}
